@@ -105,6 +105,13 @@ class Harness:
                     ln = int(m.group(1)) - 1
                     mm = re.search(r"case (\d+): ", lines[ln]) if 0 <= ln < len(lines) else None
                     if not mm:
+                        # a literal-operand object (C19) or its reader functions
+                        cm = re.search(r"\bclit_(?:obj_|run_|b_|e_)?(\w+?)\b(?: =|\(\)|\{)", lines[ln]) if 0 <= ln < len(lines) else None
+                        em = re.search(r'\{"([^"]+)", &clit_obj_%s, ' % re.escape(cm.group(1)), tus[fn]) if cm else None
+                        if em and em.group(1) not in self.dropped:
+                            first = re.search(r"error: ([^\n]*)", err)
+                            self.dropped[em.group(1)] = (first.group(1) if first else "compile error")[:200]
+                            new += 1
                         continue
                     # map (function, case) back to the instance name through the table entries
                     fnname = None
@@ -444,6 +451,33 @@ def gen_cold(h, rng, nplans, alloc_counts=None):
     return plans
 
 
+def mem_available_gib():
+    try:
+        for line in open("/proc/meminfo"):
+            if line.startswith("MemAvailable:"):
+                return int(line.split()[1]) / (1 << 20)
+    except OSError:
+        pass
+    return 0.0
+
+
+def gen_huge(h, rng, thorough):
+    """text-taking ops (flag bit 4) with operands of 2^31 bytes (quick and thorough) and 2^32 + 5 bytes (thorough): one
+    execution each, fault-free, in fresh worker processes.  The ops that walk the whole operand get a process of their own."""
+    text = sorted(n for n in h.ops if h.ops[n] & 4)
+    light = [n for n in text if "ParseEnumeration" in n]
+    heavy = [n for n in text if n not in light]
+    if not thorough:
+        light = [n for n in light if n.endswith("(bytes)")]      # the four operand generators all hand over the same huge view
+    plans = []
+    for sz in ((0, 1) if thorough else (0,)):
+        for n in heavy:
+            plans.append([op(n, rng.u64(), fault="huge", fa=sz, fb=(1 if h.ops[n] & 8 else 0))])
+        for i in range(0, len(light), 24):
+            plans.append([op(n, rng.u64(), fault="huge", fa=sz, fb=(1 if h.ops[n] & 8 else 0)) for n in light[i:i + 24]])
+    return plans
+
+
 def gen_endurance(h, rng, thorough):
     """one op repeated many times in one process, with the same operands and with fresh operands every time"""
     names = sorted(h.ops)
@@ -762,10 +796,10 @@ def main(tier, seed):
     bigrams = set()
     evaluations = 0
 
-    def execute(label, exe, runs, valgrind=False, build="san", fresh=False, env=None):
+    def execute(label, exe, runs, valgrind=False, build="san", fresh=False, env=None, precomputed=None):
         nonlocal evaluations
         t = time.time()
-        ev, st, rs = run_fresh(exe, runs) if fresh else run_parallel(exe, runs, valgrind=valgrind, env=env)
+        ev, st, rs = precomputed if precomputed is not None else (run_fresh(exe, runs) if fresh else run_parallel(exe, runs, valgrind=valgrind, env=env))
         if env is not None:
             for e in ev:
                 e["env"] = env
@@ -796,6 +830,8 @@ def main(tier, seed):
                             distinct.add((o["name"], "alloc2", k, k2))
             elif o["fault"] in ("alloc", "allocfrom") and n > 0:
                 distinct.add((o["name"], o["fault"], o["fa"] % n))
+            elif o["fault"] == "huge":
+                distinct.add((o["name"], "huge", o["fa"]))
             elif o["fault"] == "cold" and r["fired"] > 0:
                 distinct.add((o["name"], "cold", o["fa"], o["fb"]))
             elif o["fault"] == "sinkeach":
@@ -809,6 +845,24 @@ def main(tier, seed):
         log("  %-22s runs=%d ops=%d events=%d  %.1fs" % (label, len(runs), sum(len(r[1]) for r in runs), len(ev), time.time() - t))
         return rs
 
+    # huge text operands (2^31 / 2^32+5 bytes): a few long executions on a few cores, started now and collected at the end
+    import threading
+    huge_box = {}
+    huge_thread = None
+    huge_runs = [(950000 + i, ops_) for i, ops_ in enumerate(gen_huge(hs, Rng(common.run_seed(seed, 21)), thorough))]
+    avail = mem_available_gib()
+    huge_jobs = 4 if avail >= 40 else (2 if avail >= 20 else (1 if avail >= 12 else 0))
+    if os.environ.get("VERIF_C20_HUGE", "1") == "0":
+        huge_jobs = 0
+    if huge_jobs and huge_runs:
+        def _huge():
+            t_ = time.time()
+            huge_box["out"] = run_fresh(hs.exe, huge_runs, jobs=huge_jobs)
+            huge_box["wall"] = time.time() - t_
+        huge_thread = threading.Thread(target=_huge)
+        huge_thread.start()
+    else:
+        log("  huge-operand batch skipped: %.1f GiB of memory available (needs 12)" % avail)
     # 0. determinism: the same plans on different worker assignments must give identical (n, hash) per op
     det_runs = [(i, ops_) for i, ops_ in enumerate(gen_history(hs, Rng(common.run_seed(seed, 5)), 48 if thorough else 16))]
     ev1, st1, r1 = run_parallel(hs.exe, det_runs, jobs=1)
@@ -880,6 +934,10 @@ def main(tier, seed):
         execute("memcheck", hp.exe, chunked(vg_ops, 900000, size=256), valgrind=True, build="plain-memcheck")
     else:
         log("  memcheck tier skipped: valgrind not found")
+    if huge_thread is not None:
+        huge_thread.join()
+        execute("huge-operands", hs.exe, huge_runs, precomputed=huge_box["out"])
+        log("  (huge-operand batch: %d processes on %d cores alongside the other batches, %.0fs)" % (len(huge_runs), huge_jobs, huge_box["wall"]))
     evaluations = totals.get("execs", 0)
 
     # ---- violations
@@ -980,6 +1038,8 @@ def main(tier, seed):
         "by_phase": {k: v for k, v in sorted(totals.items()) if "." in k and k.endswith(".execs")},
         "op_family_bigrams_in_histories": len(bigrams),
         "conditional_code": cond,
+        "huge_operand_batch": {"worker_processes": len(huge_runs) if huge_jobs else 0, "ops": sum(len(r[1]) for r in huge_runs) if huge_jobs else 0,
+                               "operand_bytes": [2 ** 31] + ([2 ** 32 + 5] if thorough else []), "cores": huge_jobs, "mem_available_gib": round(avail, 1)},
         "determinism_sample": {"plans": len(det_runs), "worker_assignments": [1, min(16, common.NCPU)], "identical": True},
         "violation_groups": len(groups), "known_findings_matched": len(known_lines),
         "components": {"real": ["all PhQ headers from /repo/include (working tree)", "libstdc++ (strings, streams, containers, stod family) in debug mode",
